@@ -124,6 +124,7 @@ func (f *Fn) LockOp(call *ast.CallExpr) (lock *types.Var, op string) {
 
 // LockAnalysis is the per-program result.
 type LockAnalysis struct {
+	reacq []Reacquire
 	Prog  *Prog
 	entry map[*Fn]Lockset              // entry lockset (caller holds)
 	at    map[*Fn]map[ast.Node]Lockset // lockset before each top-level CFG node
@@ -336,10 +337,15 @@ func (la *LockAnalysis) transfer(f *Fn, n ast.Node, cur Lockset, onCall func(*Fn
 		if lk, op := f.LockOp(call); lk != nil {
 			switch op {
 			case "Lock":
+				if _, held := cur[lk]; held {
+					la.noteReacquire(f, call, lk, op)
+				}
 				cur[lk] = true
 			case "RLock":
 				if _, held := cur[lk]; !held {
 					cur[lk] = false
+				} else {
+					la.noteReacquire(f, call, lk, op)
 				}
 			case "Unlock", "RUnlock":
 				delete(cur, lk)
@@ -680,5 +686,105 @@ func (la *LockAnalysis) BlockingUnder(f *Fn, lock *types.Var, isOp func(n ast.No
 		}
 		return true
 	})
+	return out
+}
+
+// Reacquire is a Lock / RLock of a mutex that is certainly already held on every
+// path to the call (sync.Mutex and sync.RWMutex are not re-entrant: a second Lock
+// deadlocks, a second RLock deadlocks as soon as a writer waits in between).
+type Reacquire struct {
+	Fn   *Fn
+	Call *ast.CallExpr
+	Lock *types.Var
+	Op   string
+}
+
+func (la *LockAnalysis) noteReacquire(f *Fn, call *ast.CallExpr, lk *types.Var, op string) {
+	for _, r := range la.reacq {
+		if r.Call == call {
+			return
+		}
+	}
+	la.reacq = append(la.reacq, Reacquire{f, call, lk, op})
+}
+
+// Reacquires lists the re-entrant acquisitions found while the locksets were computed.
+func (la *LockAnalysis) Reacquires() []Reacquire { return la.reacq }
+
+// acquires returns the locks that the function (or the methods it calls on its
+// own receiver, transitively) acquires.
+func (la *LockAnalysis) acquires(f *Fn, depth int, seen map[*Fn]bool) map[*types.Var]string {
+	out := map[*types.Var]string{}
+	if f == nil || f.Body == nil || seen[f] || depth > 3 {
+		return out
+	}
+	seen[f] = true
+	recv := f.Recv()
+	InspectNoLit(f.Body, func(n ast.Node) bool {
+		call, ok := n.(*ast.CallExpr)
+		if !ok {
+			return true
+		}
+		if lk, op := f.LockOp(call); lk != nil {
+			if op == "Lock" || op == "RLock" {
+				out[lk] = op
+			}
+			return true
+		}
+		if sel, ok := ast.Unparen(call.Fun).(*ast.SelectorExpr); ok && recv != nil && f.ObjOf(sel.X) == types.Object(recv) {
+			if fn, ok := f.Callee(call).(*types.Func); ok {
+				for lk, op := range la.acquires(la.Prog.FnOf(fn), depth+1, seen) {
+					out[lk] = op
+				}
+			}
+		}
+		return true
+	})
+	return out
+}
+
+// ReentrantCalls lists calls of a method on the function's own receiver that
+// (transitively) acquires a mutex the caller certainly holds at the call.
+func (la *LockAnalysis) ReentrantCalls(pkgs ...string) []Reacquire {
+	var out []Reacquire
+	for _, pk := range pkgs {
+		for _, f := range la.Prog.FuncsIn(pk) {
+			recv := f.Recv()
+			if recv == nil || f.Body == nil {
+				continue
+			}
+			InspectNoLit(f.Body, func(n ast.Node) bool {
+				call, ok := n.(*ast.CallExpr)
+				if !ok {
+					return true
+				}
+				if lk, _ := f.LockOp(call); lk != nil {
+					return true
+				}
+				sel, ok := ast.Unparen(call.Fun).(*ast.SelectorExpr)
+				if !ok || f.ObjOf(sel.X) != types.Object(recv) {
+					return true
+				}
+				fn, ok := f.Callee(call).(*types.Func)
+				if !ok {
+					return true
+				}
+				cf := la.Prog.FnOf(fn)
+				if cf == nil {
+					return true
+				}
+				held := la.HeldAt(f, call)
+				if len(held) == 0 {
+					return true
+				}
+				for lk, op := range la.acquires(cf, 0, map[*Fn]bool{}) {
+					if _, h := held[lk]; h {
+						out = append(out, Reacquire{f, call, lk, op})
+					}
+				}
+				return true
+			})
+		}
+	}
 	return out
 }
